@@ -49,6 +49,19 @@ def step (line : String) : String :=
         (c', vs ++ (if v then "1" else "0"), rs ++ (if hit then "0" else "1"))) ([], "", "")
       s!"verdicts={vs} runs={rs}"
     | none => "bad-op"
+  | ["HX", _, hist] =>
+    -- the external command cannot be started: it vouches for nobody; the static user list still counts
+    let cfg := cfgOf true 300 true
+    let creds := (hist.splitOn ",").filterMap fun e =>
+      match e.splitOn ":" with
+      | [u, p] => match bytesOfHex u, bytesOfHex p with
+        | some u, some p => some (u, p)
+        | _, _ => none
+      | _ => none
+    let (_, vs) := creds.foldl (fun (acc : Cache × String) (e : Cred) =>
+      let (v, c') := check cfg (fun _ => false) acc.1 0 (some e)
+      (c', acc.2 ++ (if v then "1" else "0"))) ([], "")
+    s!"verdicts={vs}"
   | ["T", kind, policy, present] =>
     let k : ListenerKind := if kind == "http" then .http else if kind == "socks" then .socks else .quic
     let pol : Option TlsClientPolicy := if policy == "absent" then none else some { required := policy.startsWith "required" }
